@@ -697,7 +697,7 @@ func regConstsComparedWith(info *types.Info, n ast.Node, fld string) map[string]
 	out := map[string]bool{}
 	ast.Inspect(n, func(x ast.Node) bool {
 		be, ok := x.(*ast.BinaryExpr)
-		if !ok || be.Op != token.EQL {
+		if !ok || (be.Op != token.EQL && be.Op != token.NEQ) {
 			return true
 		}
 		for _, pr := range [][2]ast.Expr{{be.X, be.Y}, {be.Y, be.X}} {
